@@ -17,6 +17,12 @@ Decides the routing/pairing structure for every assignment of registers to layer
 R25e no elided layer: in the dispatch loop every group is handed to its layer on every path of the loop body (no `continue`
      / conditional skip before the batch call) - a "nothing changed, skip the round trip" cache keyed by the values alone
      drops the second of two writes that carry the same values for different registers of a layer.
+R25f a batch parameter that is walked more than once is materialised first: the batch methods accept any Iterable, so a
+     parameter with two iteration sites (a `for`, a comprehension, a zip argument) must be rebound to a list/tuple of
+     itself before the first - otherwise a one-shot iterable is exhausted by the grouping pass and the result is empty.
+(A register occurring twice within ONE batch collapses in the per-call dicts keyed by the register; the property's quantifier
+names duplicates across batches and its observable is the layers' register memory, which ends equal - documented in DESIGN
+9.3h, not claimed as a violation.)
 """
 from __future__ import annotations
 
@@ -294,3 +300,34 @@ def run(ctx) -> None:
                 ctx.fail("R25d", f, bc, inst, f"`{norm(bc)[:90]}`: the values are not `[value_map[r] for r in <the group's "
                          "registers>]` followed by those registers - a layer receives values in another order than its registers")
     ctx.floor("R25a", 6)
+
+    # ---- R25f / R25g
+    ctx.rule("R25f", "a batch parameter iterated more than once is materialised first")
+    for name in ("read_batch", "write_batch"):
+        f = m[name]
+        for a in f.node.args.args[1:]:
+            sites = []
+            for x in ast.walk(f.node):
+                its = []
+                if isinstance(x, (ast.For, ast.AsyncFor)):
+                    its = [x.iter]
+                elif isinstance(x, ast.comprehension):
+                    its = [x.iter]
+                for it in its:
+                    if any(isinstance(y, ast.Name) and y.id == a.arg for y in ast.walk(it)):
+                        sites.append(it)
+            sites.sort(key=lambda e: (e.lineno, e.col_offset))
+            mats = [st for st in f.node.body if isinstance(st, ast.Assign) and len(st.targets) == 1
+                    and isinstance(st.targets[0], ast.Name) and st.targets[0].id == a.arg and isinstance(st.value, ast.Call)
+                    and isinstance(st.value.func, ast.Name) and st.value.func.id in ("list", "tuple")
+                    and [norm(z) for z in st.value.args] == [a.arg]]
+            ann = norm(a.annotation) if a.annotation is not None else ""
+            sized = ann.startswith(("list", "List", "Sequence", "tuple", "Tuple"))
+            inst = f"{name}: parameter `{a.arg}` ({len(sites)} iteration site(s))"
+            if len(sites) <= 1 or sized or (mats and mats[0].lineno < sites[0].lineno):
+                ctx.ok("R25f", inst, {"rule": "R25f", "annotation": ann, "materialised": bool(mats)})
+            else:
+                ctx.fail("R25f", f, sites[1], inst, f"`{a.arg}` is declared `{ann or 'untyped'}` and walked {len(sites)} times without "
+                         "being turned into a list first: with a generator/filter/map the first pass consumes it, every layer is "
+                         "read, and the second pass finds nothing - the caller gets an empty result")
+    ctx.floor("R25f", 3)
